@@ -33,7 +33,7 @@ RE_PUSH_LITERAL = re.compile(r"PUSH_LITERAL")
 RE_RANGE_OP = re.compile(r"\.\.")
 RE_RULE_DOC = re.compile(r"///")
 RE_TAG = re.compile(r"#[_a-zA-Z][_a-zA-Z0-9]*")
-RE_WHITESPACE = re.compile(r"[ \t\n\r]+")
+RE_WHITESPACE = re.compile(r"(?:[ \t\n]|\r\n)+")
 RE_CHAR = re.compile(
     r"'\\[\\\"rnt0']'|'\\x[0-9a-fA-F]{2}'|'\\u\{[0-9a-fA-F]{2,6}\}'|'[^\\]'"
 )
